@@ -5,7 +5,8 @@
 (* For every step:                                                                            *)
 (*   diverge  the observed after-state must be one of ZoektSeqOps!Apply(observed before-      *)
 (*            state, operation): recomputed from the observed predecessor with the operators  *)
-(*            the state machine ZoektSeq uses, not taken from a prediction                    *)
+(*            the state machine ZoektSeq uses, not taken from a prediction (the code as it    *)
+(*            is, or with the patch proposed in NOTES/SYS.md)                                 *)
 (*   view     what the real directory searcher lists / finds must be what the projected       *)
 (*            directory implies (nothing from *.tmp or the trash, tombstones respected)       *)
 (*   clause   the clauses of the statement (ZoektSeqOps!Viol) hold on the observed pair       *)
@@ -41,13 +42,14 @@ Check(e, l) ==
   LET pre   == ToState(e.pre)
       post  == ToState(e.post)
       o     == [op |-> e.op, r |-> e.r, v |-> e.v, min |-> e.min]
-      exp   == Apply(pre, o)
+      exp   == Apply(pre, o, FALSE)
+      fixed == Apply(pre, o, TRUE)
       vpre  == ToVis(e.pre)
       vpost == ToVis(e.post)
-      viol  == Viol(pre, o, post, vpre, vpost, AllRepos)
+      viol  == Viol(pre, o, post, vpre, vpost, AllRepos, FALSE)
   IN IF e.junk # <<>> \/ ~Shaped(e.pre) \/ ~Shaped(e.post) THEN Reject(l, "junk", e.junk)
      ELSE /\ (e.failed # "" => Reject(l, "failed", e.failed))
-          /\ (post \notin exp => Reject(l, "diverge", SetToSeq({Out(s) : s \in exp})))
+          /\ (post \notin exp \cup fixed => Reject(l, "diverge", SetToSeq({Out(s) : s \in exp})))
           /\ (~ViewOK(vpost, post.d) => Reject(l, "view", SetToSeq(ViewOf(post.d))))
           /\ (~ViewOK(vpre, pre.d) => Reject(l, "view-before", SetToSeq(ViewOf(pre.d))))
           /\ (viol # {} => Reject(l, "clause", SetToSeq(viol)))
